@@ -4,11 +4,12 @@
     between its invocation and its return, so it returns the total of exactly
     the updates linearized before that instant - a set that contains every
     update that had returned before the Sum was invoked and no update invoked
-    after it returned.  (The striped adders' Sum is NOT an atomic snapshot;
-    their window theorem is in Adder/StripedSum.v when present; see DESIGN.md.) *)
+    after it returned.  The striped adders' Sum is NOT an atomic snapshot; for
+    them the bounds form of the property is proved below. *)
 From Coq Require Import List ZArith.
 From Garr Require Import Conc.Conc Conc.Lin Pure.F64 Adder.StripedModel Adder.SimpleModel Adder.AdderSpec.
 From Garr Require Import Adder.SimpleMutex Adder.SimpleAtomic.
+From Garr Require Import Breaker.ConcBase Adder.StripedInv Adder.StripedRead Adder.StripedC09.
 Import ListNotations.
 Local Open Scope Z_scope.
 
@@ -23,3 +24,40 @@ Theorem C09_mutex_adder : forall (progs : list (list aop)) (sched : list nat),
 Proof. exact mutex_adder_linearizable. Qed.
 Print Assumptions C09_atomic_adder.
 Print Assumptions C09_mutex_adder.
+
+(** JDKAdder (and, with exact addition, JDKF64Adder): programs of
+    non-negative Add/Inc calls and Sums, any interleaving, any table growth,
+    total below 2^62 (nothing wraps).  [applied s] = base + attached cells =
+    the exact amount of the updates that have taken effect in state [s].  A
+    Sum invoked at log position i and returning r at position j satisfies
+        applied(state at i) <= r <= applied(state after j) <= total,
+    i.e. it contains every update that had taken effect (a fortiori: had
+    returned) before it was invoked, nothing that takes effect after it
+    returned, no update twice or in part beyond those bounds; successive Sums
+    never decrease and never exceed the true total.  ([no_dead]: no thread has
+    faulted up to that step - absence of faults of the striped machine under
+    concurrency is not proved and is a hypothesis here.)  The exact
+    "set of whole updates" form for updates of mixed sign is NOT proved; it is
+    checked per history on the real code by the subset-sum monitor. *)
+Theorem C09_jdk_sum_bounds : forall f64 maxcells rnd progs sched i j t ci cj thi thj pr cj' ej r,
+  reader_progs progs -> total progs < 2 ^ 62 ->
+  let log := steps_of (striped wadd f64 maxcells) (init apc (ainit rnd) tt progs) sched in
+  nth_error log i = Some (ci, t) -> nth_error log j = Some (cj, t) -> (i < j)%nat ->
+  nth_error (c_thr ci) t = Some thi -> t_cur thi = None -> t_prog thi = Sum :: pr ->
+  nth_error (c_thr cj) t = Some thj -> t_prog thj = pr ->
+  step_thread (striped wadd f64 maxcells) cj t = Some (cj', ej) -> In (ERet t Sum (RZ r)) ej ->
+  no_dead cj' ->
+  applied (c_sh ci) <= r <= applied (c_sh cj') /\ applied (c_sh cj') <= total progs.
+Proof. exact sum_bounds_log. Qed.
+Theorem C09_jdk_f64_sum_bounds : forall f64 maxcells rnd progs sched i j t ci cj thi thj pr cj' ej r,
+  reader_progs progs ->
+  let log := steps_of (striped Z.add f64 maxcells) (init apc (ainit rnd) tt progs) sched in
+  nth_error log i = Some (ci, t) -> nth_error log j = Some (cj, t) -> (i < j)%nat ->
+  nth_error (c_thr ci) t = Some thi -> t_cur thi = None -> t_prog thi = Sum :: pr ->
+  nth_error (c_thr cj) t = Some thj -> t_prog thj = pr ->
+  step_thread (striped Z.add f64 maxcells) cj t = Some (cj', ej) -> In (ERet t Sum (RZ r)) ej ->
+  no_dead cj' ->
+  applied (c_sh ci) <= r <= applied (c_sh cj') /\ applied (c_sh cj') <= total progs.
+Proof. exact sum_bounds_log_exact. Qed.
+Print Assumptions C09_jdk_sum_bounds.
+Print Assumptions C09_jdk_f64_sum_bounds.
